@@ -98,14 +98,21 @@ structure Inv (h0 : Heap) (fresh : List Nat) (s : State) : Prop where
   len : h0.length ≤ s.heap.length
   fr : ∀ v ∈ fresh, ∀ r, s.env.get v = some r → h0.length ≤ r.buf
 
-theorem step_inv (h0 : Heap) (st : Step) (p : List Step) (fresh : List Nat) (s s' : State)
+/-- how one step changes the set of variables known to live in the routine's own buffers (the bookkeeping of `safe`) -/
+def stepFresh : Step → List Nat → List Nat
+  | .alloc dst _ _, fresh => dst :: fresh
+  | .view dst src _, fresh => if fresh.contains src then dst :: fresh else fresh.filter (· != dst)
+  | .write _ _ _, fresh => fresh
+  | .tryWrite _ _ _, fresh => fresh
+
+theorem step_inv_fresh (h0 : Heap) (st : Step) (p : List Step) (fresh : List Nat) (s s' : State)
     (hs : safe (st :: p) fresh = true) (inv : Inv h0 fresh s) (hst : step s st = some s') :
-    ∃ fresh', safe p fresh' = true ∧ Inv h0 fresh' s' := by
+    safe p (stepFresh st fresh) = true ∧ Inv h0 (stepFresh st fresh) s' := by
   cases st with
   | alloc dst srcs f =>
     simp only [step, Option.some.injEq] at hst
     subst hst
-    refine ⟨dst :: fresh, by simpa [safe] using hs, ?_, ?_, ?_⟩
+    refine ⟨by simpa [safe, stepFresh] using hs, ?_, ?_, ?_⟩
     · simp only; rw [take_append_one _ _ _ inv.len]; exact inv.pre
     · simp only [List.length_append, List.length_singleton]; have := inv.len; omega
     · intro v hv r hr
@@ -127,7 +134,8 @@ theorem step_inv (h0 : Heap) (st : Step) (p : List Step) (fresh : List Nat) (s s
       simp only [safe] at hs
       by_cases hsrc : fresh.contains src = true
       · rw [if_pos hsrc] at hs
-        refine ⟨dst :: fresh, hs, inv.pre, inv.len, ?_⟩
+        simp only [stepFresh, if_pos hsrc]
+        refine ⟨hs, inv.pre, inv.len, ?_⟩
         intro v hv r' hr'
         by_cases hvd : v = dst
         · subst hvd
@@ -139,7 +147,8 @@ theorem step_inv (h0 : Heap) (st : Step) (p : List Step) (fresh : List Nat) (s s
           · exact absurd h hvd
           · exact inv.fr v h r' hr'
       · rw [if_neg hsrc] at hs
-        refine ⟨fresh.filter (· != dst), hs, inv.pre, inv.len, ?_⟩
+        simp only [stepFresh, if_neg hsrc]
+        refine ⟨hs, inv.pre, inv.len, ?_⟩
         intro v hv r' hr'
         simp only [List.mem_filter, bne_iff_ne, ne_eq] at hv
         rw [Env.get_set_other _ _ _ _ hv.2] at hr'
@@ -154,7 +163,7 @@ theorem step_inv (h0 : Heap) (st : Step) (p : List Step) (fresh : List Nat) (s s
         subst hst
         simp only [safe, Bool.and_eq_true] at hs
         have hb := inv.fr v (by simpa using hs.1) r hr
-        exact ⟨fresh, hs.2, by simp only; rw [writeRef_take _ _ _ _ hb]; exact inv.pre,
+        exact ⟨hs.2, by simp only; rw [writeRef_take _ _ _ _ hb]; exact inv.pre,
                by simp only; rw [writeRef_length]; exact inv.len, inv.fr⟩
       · cases hst
   | tryWrite v srcs f =>
@@ -167,11 +176,11 @@ theorem step_inv (h0 : Heap) (st : Step) (p : List Step) (fresh : List Nat) (s s
       split at hst
       · simp only [Option.some.injEq] at hst
         subst hst
-        exact ⟨fresh, hs.2, by simp only; rw [writeRef_take _ _ _ _ hb]; exact inv.pre,
+        exact ⟨hs.2, by simp only; rw [writeRef_take _ _ _ _ hb]; exact inv.pre,
                by simp only; rw [writeRef_length]; exact inv.len, inv.fr⟩
       · simp only [Option.some.injEq] at hst
         subst hst
-        refine ⟨fresh, hs.2, ?_, ?_, ?_⟩
+        refine ⟨hs.2, ?_, ?_, ?_⟩
         · simp only
           rw [writeRef_take _ _ _ _ (by exact inv.len), take_append_one _ _ _ inv.len]; exact inv.pre
         · simp only [writeRef_length, List.length_append, List.length_singleton]; have := inv.len; omega
@@ -182,6 +191,11 @@ theorem step_inv (h0 : Heap) (st : Step) (p : List Step) (fresh : List Nat) (s s
             subst hr'; exact inv.len
           · rw [Env.get_set_other _ _ _ _ hwv] at hr'
             exact inv.fr w hw r' hr'
+
+theorem step_inv (h0 : Heap) (st : Step) (p : List Step) (fresh : List Nat) (s s' : State)
+    (hs : safe (st :: p) fresh = true) (inv : Inv h0 fresh s) (hst : step s st = some s') :
+    ∃ fresh', safe p fresh' = true ∧ Inv h0 fresh' s' :=
+  ⟨_, step_inv_fresh h0 st p fresh s s' hs inv hst⟩
 
 theorem run_inv (h0 : Heap) (p : List Step) : ∀ (fresh : List Nat) (s s' : State),
     safe p fresh = true → Inv h0 fresh s → run p s = some s' → s'.heap.take h0.length = h0 := by
@@ -261,10 +275,15 @@ theorem frame_readonly (p : List Step) : ∀ (s s' : State) (b : Nat) (buf : Buf
             simp only [writeRef]
             rw [updateBuf_get_other _ _ _ _ (by omega), List.getElem?_append_left hblt]; exact hb
 
-/-! ### the anchored routines -/
+/-! ### the anchored routines
+
+The `*_model` theorems below are `frame` applied to the hand-written programs of `Model/C20.lean`: they certify that a routine
+WITH THESE view/copy TAGS writes only its own buffers. That the tags are the library's (and NumPy's) behaviour is a separate
+obligation: every tag used by a program is listed in `modelTags` and compared with `Gen.C20.stepAliasing`, which is measured
+on the running code with `np.shares_memory` on every run (`gen_tags_match`). -/
 
 /-- `str_to_int`: the sign characters are zeroed on a private copy; no caller buffer changes -/
-theorem frame_str_to_int (value : List Bytes → Bytes) (h : Heap) (env : Env) (s' : State)
+theorem frame_str_to_int_model (value : List Bytes → Bytes) (h : Heap) (env : Env) (s' : State)
     (hr : run (strToInt value) { heap := h, env := env } = some s') : s'.heap.take h.length = h :=
   frame _ rfl h env s' hr
 
@@ -275,7 +294,7 @@ theorem strToIntNoCopy_unsound :
       = some [⟨[48, 49, 50], true⟩, ⟨[3], true⟩] := by decide
 
 /-- `str_to_float`: `-` and `.` are zeroed on the rows obtained by boolean indexing (a copy) -/
-theorem frame_str_to_float (selRows value : List Bytes → Bytes) (zeroDots : Bytes → List Bytes → Bytes)
+theorem frame_str_to_float_model (selRows value : List Bytes → Bytes) (zeroDots : Bytes → List Bytes → Bytes)
     (h : Heap) (env : Env) (s' : State)
     (hr : run (strToFloat selRows value zeroDots) { heap := h, env := env } = some s') :
     s'.heap.take h.length = h :=
@@ -291,7 +310,7 @@ theorem decimalStrToFloatDirect_unsound :
       = some [⟨[48, 49, 48, 53], true⟩] := by decide
 
 /-- list-valued columns: the separator is written into the gathered field text, never into the file buffer -/
-theorem frame_parse_split_fields (gather value : List Bytes → Bytes) (putSep : Bytes → List Bytes → Bytes)
+theorem frame_parse_split_fields_model (gather value : List Bytes → Bytes) (putSep : Bytes → List Bytes → Bytes)
     (h : Heap) (env : Env) (s' : State)
     (hr : run (parseSplitFields gather value putSep) { heap := h, env := env } = some s') :
     s'.heap.take h.length = h :=
@@ -310,7 +329,7 @@ theorem parseSplitFieldsOnView_unsound :
 
 /-- genotype columns of file chunks: whatever is written is written into the gathered column text only
 (shipped and repaired code alike) -/
-theorem frame_genotype (old : Bool) (gather pick : List Bytes → Bytes) (h : Heap) (env : Env) (s' : State)
+theorem frame_genotype_model (old : Bool) (gather pick : List Bytes → Bytes) (h : Heap) (env : Env) (s' : State)
     (hr : run (genotypePreprocess old gather pick) { heap := h, env := env } = some s') :
     s'.heap.take h.length = h := by
   cases old
@@ -318,7 +337,7 @@ theorem frame_genotype (old : Bool) (gather pick : List Bytes → Bytes) (h : He
   · exact frame _ rfl h env s' hr
 
 /-- the public `GenotypeRowEncoding.encode` on the caller's own array (repaired code): nothing is written -/
-theorem frame_genotype_encode (pick : List Bytes → Bytes) (h : Heap) (env : Env) (s' : State)
+theorem frame_genotype_encode_model (pick : List Bytes → Bytes) (h : Heap) (env : Env) (s' : State)
     (hr : run (genotypeEncode pick) { heap := h, env := env } = some s') : s'.heap.take h.length = h :=
   frame _ rfl h env s' hr
 
@@ -330,7 +349,7 @@ theorem genotypeEncodeOld_unsound :
       = some [⟨[48, 47, 49, 9], true⟩] := by decide
 
 /-- `merge_intervals`: `stops += distance` and `new.stop -= distance` hit arrays the routine made itself -/
-theorem frame_merge (acc mask pickStart pickStop : List Bytes → Bytes) (addD subD : Bytes → List Bytes → Bytes)
+theorem frame_merge_model (acc mask pickStart pickStop : List Bytes → Bytes) (addD subD : Bytes → List Bytes → Bytes)
     (h : Heap) (env : Env) (s' : State)
     (hr : run (mergeIntervals acc mask pickStart pickStop addD subD) { heap := h, env := env } = some s') :
     s'.heap.take h.length = h :=
@@ -352,7 +371,7 @@ theorem bincountReduce_writes_argument :
       = some [⟨[11, 12, 13], true⟩, ⟨[10, 10, 10], true⟩] := by decide
 
 /-- … but inside `bnp.bincount(stream)` it only ever writes the per-chunk counts it computed itself -/
-theorem frame_bincount_stream (count : List Bytes → Bytes) (add : Bytes → List Bytes → Bytes)
+theorem frame_bincount_stream_model (count : List Bytes → Bytes) (add : Bytes → List Bytes → Bytes)
     (h : Heap) (env : Env) (s' : State)
     (hr : run (bincountStream count add) { heap := h, env := env } = some s') :
     s'.heap.take h.length = h :=
@@ -703,7 +722,7 @@ theorem step_write_other (s : State) (w : Nat) (srcs : List Nat) (f : Bytes → 
 
 /-- `str_to_int` on a fresh, view-shaped selection: no caller buffer changes AND the caller's selection object (which the call
 materialises) still reads exactly what it read before -/
-theorem frame_fresh_selection (value : List Bytes → Bytes) (h : Heap) (env : Env) (r0 : Ref) (s' : State)
+theorem frame_fresh_selection_model (value : List Bytes → Bytes) (h : Heap) (env : Env) (r0 : Ref) (s' : State)
     (h0 : env.get 0 = some r0) (hr : run (strToIntFresh value) { heap := h, env := env } = some s') :
     s'.heap.take h.length = h ∧ (s'.env.get 0).map (read s'.heap) = some (read h r0) := by
   refine ⟨frame _ rfl h env s' hr, ?_⟩
@@ -734,7 +753,7 @@ theorem strToIntFreshAlias_unsound :
       = some (some [48, 49, 50], [⟨[55, 45, 49, 50, 55], true⟩]) := by decide
 
 /-- VCF positions: `val -= 1` is applied to the freshly parsed column, never to a caller buffer -/
-theorem frame_vcf_position (parse : List Bytes → Bytes) (h : Heap) (env : Env) (s' : State)
+theorem frame_vcf_position_model (parse : List Bytes → Bytes) (h : Heap) (env : Env) (s' : State)
     (hr : run (vcfPosition parse) { heap := h, env := env } = some s') : s'.heap.take h.length = h :=
   frame _ rfl h env s' hr
 
@@ -758,6 +777,59 @@ theorem frame_reads (p : List Step) (hs : safe p [] = true) (h : Heap) (env : En
   simp only [read, this]
 
 example : ∃ s2, run (strToInt (fun a => a.headD [])) { heap := [⟨[45, 49], true⟩, ⟨[2], true⟩, ⟨[48, 49], true⟩, ⟨[48, 49], true⟩], env := [some ⟨0, [0, 1]⟩, some ⟨1, [0]⟩] } = some s2 := ⟨_, rfl⟩
+
+/-! ### results are fresh; what a chunk writes is unchanged (corollaries) -/
+
+/-- the variables the static check knows to live in buffers allocated by the routine, after the whole program -/
+def freshAfter : List Step → List Nat → List Nat
+  | [], fresh => fresh
+  | st :: p, fresh => freshAfter p (stepFresh st fresh)
+
+theorem run_inv_fresh (h0 : Heap) (p : List Step) : ∀ (fresh : List Nat) (s s' : State),
+    safe p fresh = true → Inv h0 fresh s → run p s = some s' → Inv h0 (freshAfter p fresh) s' := by
+  induction p with
+  | nil => intro fresh s s' _ inv hr; simp only [run, Option.some.injEq] at hr; subst hr; exact inv
+  | cons st p ih =>
+    intro fresh s s' hs inv hr
+    simp only [run] at hr
+    split at hr
+    · cases hr
+    · rename_i s1 hs1
+      obtain ⟨hs', inv'⟩ := step_inv_fresh h0 st p fresh s s1 hs inv hs1
+      have : freshAfter (st :: p) fresh = freshAfter p (stepFresh st fresh) := by cases st <;> rfl
+      rw [this]
+      exact ih _ s1 s' hs' inv' hr
+
+/-- **a result does not alias an argument**: every variable the routine leaves in one of its own buffers (in particular
+a result produced by `alloc`, or a view of such a result) refers to a buffer that did not exist before the call — so nothing
+the caller later writes through the result can reach a buffer the caller owned before -/
+theorem result_fresh (p : List Step) (hs : safe p [] = true) (h : Heap) (env : Env) (s' : State)
+    (hr : run p { heap := h, env := env } = some s') (v : Nat) (hv : v ∈ freshAfter p []) (r : Ref)
+    (hg : s'.env.get v = some r) : h.length ≤ r.buf :=
+  (run_inv_fresh h p [] _ s' hs ⟨by simp, Nat.le_refl _, by intro v hv; cases hv⟩ hr).fr v hv r hg
+
+example : 3 ∈ freshAfter (strToInt (fun _ => [])) [] := by decide
+example : 4 ∈ freshAfter (mergeIntervals (fun _ => []) (fun _ => []) (fun _ => []) (fun _ => []) (fun c _ => c) (fun c _ => c)) [] ∧
+    5 ∈ freshAfter (mergeIntervals (fun _ => []) (fun _ => []) (fun _ => []) (fun _ => []) (fun c _ => c) (fun c _ => c)) [] := by decide
+
+/-- the bytes a lazily read chunk writes are what its record references read in the file buffer -/
+def writtenBytes (h : Heap) (records : List Ref) : Bytes := (records.map (read h)).flatten
+
+/-- **field access does not change what a chunk writes**: after ANY routine that passes the static check (parsing a list
+column, a genotype column, a VCF position, a number column, …) the chunk's records — references into buffers that existed
+before — read, hence write, the same bytes -/
+theorem written_bytes_unchanged (p : List Step) (hs : safe p [] = true) (h : Heap) (env : Env) (s' : State)
+    (hr : run p { heap := h, env := env } = some s') (records : List Ref) (hb : ∀ r ∈ records, r.buf < h.length) :
+    writtenBytes s'.heap records = writtenBytes h records := by
+  unfold writtenBytes
+  congr 1
+  apply List.map_congr_left
+  intro r hrm
+  exact frame_reads p hs h env s' hr r (hb r hrm)
+
+/-- Gen obligation: every view/copy tag a program of `Model/C20.lean` relies on is what `np.shares_memory` measures on
+the running code this run (aliasing of the step's result with its source: true = view, false = fresh buffer) -/
+theorem gen_tags_match : Gen.C20.stepAliasing = modelTags := by decide
 
 /-! ### Gen obligation: the modelled write sites, probed on the running code this run -/
 
